@@ -2123,6 +2123,15 @@ int EGLPNUM_TYPENAME_ILLlib_chgsense (
 		}
 	}
 
+	/* the coefficient of a logical column changes sign below: the row-wise copy
+	 * of the matrix (problems that came out of a reader have one) holds the old
+	 * one, as after a chgcoef call */
+	if (num > 0 && qslp->rA)
+	{
+		EGLPNUM_TYPENAME_ILLlp_rows_clear (qslp->rA);
+		ILL_IFFREE(qslp->rA);
+	}
+
 	for (i = 0; i < num; i++)
 	{
 		j = qslp->rowmap[rowlist[i]];
